@@ -948,73 +948,24 @@ func (f *Field) ClearBit(rowID, colID uint64) (changed bool, err error) {
 	if viewN == 1 { // assuming no time views
 		return changed, nil
 	}
-	lastViewNameSize := 0
-	level := 0
-	skipAbove := maxInt
-	for _, view := range f.allTimeViewsSortedByQuantum() {
-		if lastViewNameSize < len(view.name) {
-			level++
-		} else if lastViewNameSize > len(view.name) {
-			level--
+
+	// Clear the bit in every time view. The views a timestamp was written to
+	// are not recorded, and neither the order nor the nesting of the view
+	// names tells which of them can be skipped, so none is.
+	for _, view := range f.views() {
+		if !strings.HasPrefix(view.name, viewStandard+"_") {
+			continue
 		}
-		if level < skipAbove {
-			if changed, err = view.clearBit(rowID, colID); err != nil {
-				return changed, errors.Wrapf(err, "clearing on view %s", view.name)
-			}
-			if !changed {
-				skipAbove = level + 1
-			} else {
-				skipAbove = maxInt
-			}
+		v, err := view.clearBit(rowID, colID)
+		if err != nil {
+			return changed, errors.Wrapf(err, "clearing on view %s", view.name)
 		}
-		lastViewNameSize = len(view.name)
+		changed = changed || v
 	}
 
 	return changed, nil
 }
 
-func groupCompare(a, b string, offset int) (lt, eq bool) {
-	if len(a) > offset {
-		a = a[:offset]
-	}
-	if len(b) > offset {
-		b = b[:offset]
-	}
-	v := strings.Compare(a, b)
-	return v < 0, v == 0
-}
-
-func (f *Field) allTimeViewsSortedByQuantum() (me []*view) {
-	prefix := viewStandard + "_"
-	offset := len(viewStandard) + 1
-	f.mu.RLock()
-	me = make([]*view, len(f.viewMap))
-	i := 0
-	for _, v := range f.viewMap {
-		if len(v.name) > offset && strings.Compare(v.name[:offset], prefix) == 0 { // skip non-time views
-			me[i] = v
-			i++
-		}
-	}
-	f.mu.RUnlock()
-	me = me[:i]
-	year := strings.Index(me[0].name, "_") + 4
-	month := year + 2
-	day := month + 2
-	sort.Slice(me, func(i, j int) (lt bool) {
-		var eq bool
-		// group by quantum from year to hour
-		if lt, eq = groupCompare(me[i].name, me[j].name, year); eq {
-			if lt, eq = groupCompare(me[i].name, me[j].name, month); eq {
-				if lt, eq = groupCompare(me[i].name, me[j].name, day); eq {
-					lt = strings.Compare(me[i].name, me[j].name) > 0
-				}
-			}
-		}
-		return lt
-	})
-	return me
-}
 
 // Value reads a field value for a column.
 func (f *Field) Value(columnID uint64) (value int64, exists bool, err error) {
